@@ -19,9 +19,11 @@ echo "$SUITE" | grep -q "FAILED\|[1-9][0-9]* failed" && { echo "RESULT $NAME: ex
 NRES=$(echo "$SUITE" | grep -o "test result" | wc -l)
 [ "$NRES" -ge 4 ] || { echo "RESULT $NAME: suite did not run completely: $SUITE"; exit 1; }
 cp $SRC/seeded_demo.rs tests/seeded_demo.rs
-WITH=$(cargo test --offline --test seeded_demo 2>&1 | grep -E "^test result" | tr '\n' ' ')
+WITH=$(cargo test --offline ${DEMO_FEATURES:+--features $DEMO_FEATURES} --test seeded_demo 2>&1 | grep -E "^test result|process abort|SIGABRT|SIGSEGV" | tr '\n' ' ')
+# a demonstration that aborts the test process (e.g. an unsafe-precondition check in the debug profile) prints no result line
+echo "$WITH" | grep -q "SIGABRT\|SIGSEGV\|process abort" && WITH="test result: FAILED (test process aborted: $WITH)"
 git apply -R $SRC/patch.diff
-WITHOUT=$(cargo test --offline --test seeded_demo 2>&1 | grep -E "^test result" | tr '\n' ' ')
+WITHOUT=$(cargo test --offline ${DEMO_FEATURES:+--features $DEMO_FEATURES} --test seeded_demo 2>&1 | grep -E "^test result" | tr '\n' ' ')
 git apply $SRC/patch.diff
 rm -f tests/seeded_demo.rs
 echo "  suite with change:   $SUITE"
